@@ -448,7 +448,7 @@ _ADDED6 = {
     "C05": "Single transient datastore write or read failures while an announcement is registered, also a re-delivered one (an announced key must be usable). Distribution half: one device may deactivate the group after its activation and activate it again at the end (others join meanwhile).",
     "C06": "Signatures ground against small-order keys. Two or three honest sessions between three accounts alive at once in one process, their frames delivered one at a time in generated interleavings (crossing requests included): all must complete.",
     "C07": "Contacts whose key is not a point of the curve.",
-    "C08": "Group-context layer with an undecodable entry inside a delivered batch; the receiving device may be a second device of the sender's own account (multi-member group or account group).",
+    "C08": "Group-context layer with an undecodable entry inside a delivered batch; the receiving device may be a second device of the sender's own account (multi-member group or account group); in a quarter of the cases the sender's announcement arrives while the receiver's activation is held in its catch-up.",
     "C09": "A further receiving device with a key window of 3 reads the envelopes in the order they were handed out (retrying after every success): every one of them must open in the end. `TestVerif_C09_TransientReadFailure`: between two bursts of sends a call touching the own chain-key record (share the key, record the group, send) meets failing reads.",
     "C10": "After restart the subject store must also open its own envelopes handed out before the stop (read-back path).",
     "C11": "Derivations are also asked for public keys nobody can hold (byte strings that are not curve points, points of small order): refused, or unrelated across accounts and keys.",
